@@ -21,11 +21,17 @@ def load(name):
     return [json.loads(l) for l in open(p)] if os.path.exists(p) else []
 
 
+import threading
+_plock = threading.Lock()
+
+
 def pristine():
     p = os.path.join(D, "pristine")
-    if not os.path.exists(p):
-        os.makedirs(p)
-        subprocess.run("git -C /repo archive HEAD | tar -x -C " + p, shell=True, check=True)
+    with _plock:
+        if not os.path.exists(p):
+            os.makedirs(p + ".tmp", exist_ok=True)
+            subprocess.run("git -C /repo archive HEAD | tar -x -C " + p + ".tmp", shell=True, check=True)
+            os.rename(p + ".tmp", p)
     return p
 
 
